@@ -180,6 +180,8 @@ def subset_history(rng):
     steps = []
     for step in range(rng.randint(3, 6)):
         idx = sorted(rng.sample(range(2, len(cons)), rng.randint(1, len(cons) - 2)))
+        if rng.random() < 0.3:
+            idx = idx + [rng.choice(idx)]       # the same constraint object listed twice
         steps.append(idx)
         with warnings.catch_warnings():
             warnings.simplefilter('ignore')
